@@ -34,6 +34,8 @@ TxWriteOK(v, t) == /\ v \in seen                                                
 TxWriteUpd(v, t) == /\ lastWrite' = t /\ lastBus' = v /\ owed' = (owed /\ v # lastSet)
                     /\ UNCHANGED <<lastSet, lastSetAt, seen, reads>>
 TxWrite(v, t) == TxWriteOK(v, t) /\ TxWriteUpd(v, t)
+\* with periodic sending configured a write may also be a periodic repetition (not caused by an update): no spacing rule
+TxWriteAny(v, t) == v \in seen /\ TxWriteUpd(v, t)
 (* a GroupValueResponse on the bus: answers the oldest open read with the most recent value *)
 TxResponseOK(v, t) == Live(t) # <<>> /\ v = lastSet
 TxResponseUpd(v, t) == /\ reads' = (IF Live(t) = <<>> THEN <<>> ELSE Tail(Live(t))) /\ lastBus' = v /\ owed' = FALSE
